@@ -9,6 +9,7 @@ pub mod c06;
 pub mod c10;
 pub mod hist;
 pub mod c12;
+pub mod c14;
 pub mod c16;
 pub mod c17;
 pub mod c18;
@@ -16,5 +17,5 @@ pub mod c19;
 pub mod c20;
 
 pub fn registry() -> Vec<PropertyInfo> {
-    vec![c01::info_c01(), c01::info_c02(), c03::info(), c04::info(), c05::info(), c06::info(), hist::info_c07(), c01::info_c08(), hist::info_c09(), c10::info(), hist::info_c11(), c12::info(), hist::info_c13(), hist::info_c15(), c16::info(), c17::info(), c18::info(), c19::info(), c20::info()]
+    vec![c01::info_c01(), c01::info_c02(), c03::info(), c04::info(), c05::info(), c06::info(), hist::info_c07(), c01::info_c08(), hist::info_c09(), c10::info(), hist::info_c11(), c12::info(), hist::info_c13(), c14::info(), hist::info_c15(), c16::info(), c17::info(), c18::info(), c19::info(), c20::info()]
 }
